@@ -202,6 +202,45 @@ def rule_substep_affine(eng, rep, rule="C15-4.each-substep-moves-x-by-the-change
             rep.bad(rule, site, "util.dykstra|projector-argument", "the projector is not applied to (x - y_i) of the values before the update")
 
 
+def rule_projector_argument_is_not_reused(eng, rep, rule="C15-4b.the-point-handed-to-a-projector-is-not-read-again"):
+    """A user projection may work in place and return its argument.  The sweep is then still correct if the argument was a temporary (`P[i](prev_x - y[i])`), but not if
+    it is a local that is read afterwards (`z = x - y[i]; x = P[i](z); y_new = x - z` gives a zero correction): every argument of a projector call must be an
+    expression temporary, or a name with no read reachable from the call before its next assignment."""
+    fi, cfg, (wh, wst), (fh, fst) = _dykstra(eng)
+    P = fi.posparams[0]
+    n = 0
+    for node, d in cfg.g.nodes(data=True):
+        st = d["ast"]
+        if d["kind"] != "stmt" or st is None:
+            continue
+        for c in ast.walk(st):
+            if isinstance(c, ast.Call) and isinstance(c.func, ast.Subscript) and ekey(c.func.value) == P:
+                n += 1
+                for a in c.args:
+                    if not isinstance(a, ast.Name):
+                        rep.ok(rule, eng.where(fi, st), "the projector receives the temporary `%s`" % short(a, 40))
+                        continue
+                    redefs = [m for m in cfg.g.nodes if a.id in cfg.defs_of(m)[0]]
+                    later = None
+                    for m, dd in cfg.g.nodes(data=True):
+                        s2 = dd["ast"]
+                        if s2 is None or m == node:
+                            continue
+                        reads = [x for x in ast.walk(s2) if isinstance(x, ast.Name) and x.id == a.id and isinstance(x.ctx, ast.Load)] if dd["kind"] in ("stmt", "cond") else []
+                        if reads and cfg.path_avoiding(node, m, [r for r in redefs if r != m]) is not None:
+                            later = s2
+                            break
+                    # a read in the very statement of the call, evaluated after the call?  (x = P(z) - z)
+                    same = [x for x in ast.walk(st) if isinstance(x, ast.Name) and x.id == a.id and isinstance(x.ctx, ast.Load) and x is not a]
+                    if later is not None or same:
+                        rep.bad(rule, eng.where(fi, st), "util.dykstra|projector-argument-read-again|%s" % a.id,
+                                "`%s` is handed to a projector and read again in `%s`: an in-place projector returns the same array, the correction computed from the two is zero and the sweep 'converges' to a point outside the sets"
+                                % (a.id, short(later if later is not None else st, 50)))
+                    else:
+                        rep.ok(rule, eng.where(fi, st), "`%s` is not read after the projector call" % a.id)
+    rep.require_count(rule, "projector calls in dykstra", n, 1)
+
+
 def rule_limits_are_the_callers(eng, rep, rule="C15-3b.the-loop-tests-the-callers-tolerance-and-sweep-limit"):
     """The sqrt(p*tol) bound and 'at most max_iter sweeps' are statements about the values the caller passed: the loop test must compare against the parameters
     themselves, so neither parameter may be re-assigned inside dykstra (e.g. a 'scale-invariant' tol = tol * max(1, |x0|^2))."""
@@ -234,6 +273,7 @@ def run(eng, rep):
     rule_stopping_quantity(eng, rep)
     rule_substep_affine(eng, rep)
     rule_limits_are_the_callers(eng, rep)
+    rule_projector_argument_is_not_reused(eng, rep)
     # the two projectors
     pb = eng.fn("util.pbox")
     r = [n for n in eng.prog.own_nodes(pb) if isinstance(n, ast.Return)]
